@@ -334,16 +334,24 @@ def replay(q, r, prop, logdir):
     hname, argfn = rp
     h = next(x for x in spec.HARNESSES if x.name == hname)
     try:
-        argvals = argfn(r.get("model") or {})
+        argsets = argfn(r.get("model") or {})
     except Exception as e:  # noqa
         r.update(verdict="inconclusive", why=r["why"] + " (cannot map model to replay arguments: %r)" % (e,))
         return r
-    vals = []
-    for arg in h.args:
-        a, at = arg[0], arg[1]
-        vals.append((a, at, arg[2] if len(arg) > 2 else argvals[a]))
-    with driver.Lock("replay.lock"):
-        out = driver.replay_native(h, vals, logdir, tag="e2_" + q["name"])
+    if isinstance(argsets, dict):
+        argsets = [argsets]
+    # where opaque callees stand between the model and concrete inputs, the query names a few
+    # candidate argument sets; the violation is reported only if one of them fails natively
+    out, vals = None, None
+    for k, argvals in enumerate(argsets):
+        vals = []
+        for arg in h.args:
+            a, at = arg[0], arg[1]
+            vals.append((a, at, arg[2] if len(arg) > 2 else argvals[a]))
+        with driver.Lock("replay.lock"):
+            out = driver.replay_native(h, vals, logdir, tag="e2_%s_%d" % (q["name"], k))
+        if out.get("dev", {}).get("panicked"):
+            break
     r["replay"] = {p: {k: v for k, v in d.items() if k != "output"} for p, d in out.items()}
     rfile = os.path.join(driver.OUT, "replay", "%s_E2_%s.json" % (prop, q["name"]))
     os.makedirs(os.path.dirname(rfile), exist_ok=True)
